@@ -140,5 +140,5 @@ def run(ctx):
         bad = [dict(r) for r in rs]
         bad[idx]["n"] -= 1
         return bad, idx
-    ctx.validate_trace("Chunker", "TraceChunker.tla", "TraceChunker.cfg", recs, timeout=1200,
+    ctx.validate_trace("Chunker", "TraceChunker.tla", "TraceChunker.cfg", recs, timeout=3000,
                        count_runs=lambda rs: runs, negative=corrupt)
